@@ -40,6 +40,8 @@ func pairSpace(tier, opt string) []pairLeg {
 		add("K", k)
 		if !two {
 			add("Kstr", KeyedStr())
+		} else {
+			add("K2same", Keyed2Same())
 		}
 		keys := []string{"id"}
 		if two {
